@@ -3,7 +3,7 @@
    printed is computed by the extracted functions backend_checks / ctypes / cwt_* / mem_consistent / hyp_proc.
 
    input : (case ID (mems ((0|1 ...) ...) ((r w red) ...)) (order (i ...)) (procs (PROC ...)))
-   output: ID ok  cwtp=b cwtk=b cwtc=b mem=b hyp=b tags=t1,t2,...
+   output: ID ok  cwtp=b cwtk=b cwtc=b mem=b hyp=b declwin=b tags=t1,t2,...
            ID err CLASS POS          (POS = position in `order` of the procedure whose analysis failed)
            ID bad MESSAGE            (input not understood)                                                   *)
 open Annot_model
@@ -139,8 +139,9 @@ let run_case (line : string) : string =
          let memok = List.for_all (fun (_, ap) -> mem_consistent cfg sigs ap) aps in
          let hyp = List.for_all (fun (i, _) -> hyp_proc F32 sigs (List.nth prog (int_of_nat i))) aps in
          let tags = List.sort_uniq compare (List.filter_map tag_of obl) in
-         Printf.sprintf "%s ok cwtp=%s cwtk=%s cwtc=%s mem=%s hyp=%s tags=%s" id
-           (b2s (cwt_prec obl)) (b2s (cwt_kind obl)) (b2s (cwt_const obl)) (b2s memok) (b2s hyp)
+         let declwin = List.exists (fun (i, _) -> decl_window_for_dense F32 sigs (List.nth prog (int_of_nat i))) aps in
+         Printf.sprintf "%s ok cwtp=%s cwtk=%s cwtc=%s mem=%s hyp=%s declwin=%s tags=%s" id
+           (b2s (cwt_prec obl)) (b2s (cwt_kind obl)) (b2s (cwt_const obl)) (b2s memok) (b2s hyp) (b2s declwin)
            (String.concat "," tags))
     with Failure m -> Printf.sprintf "%s bad %s" id m
        | Not_found -> Printf.sprintf "%s bad not_found" id
